@@ -41,6 +41,40 @@ func (s *c08Slice) Pop() (int64, error) {
 	return v, nil
 }
 
+// c08Spill: FIFO = the embedded channel (oldest values) followed by the overflow slice; not thread-safe by itself
+type c08Spill struct {
+	fpgo.ChannelQueue[int64]
+	spill []int64
+}
+
+func (q *c08Spill) Offer(v int64) error {
+	if len(q.spill) == 0 && q.ChannelQueue.Offer(v) == nil {
+		return nil
+	}
+	q.spill = append(q.spill, v)
+	return nil
+}
+
+func (q *c08Spill) Poll() (int64, error) {
+	v, err := q.ChannelQueue.Poll()
+	if err == nil {
+		if len(q.spill) > 0 {
+			q.ChannelQueue.Offer(q.spill[0])
+			q.spill = q.spill[1:]
+		}
+		return v, nil
+	}
+	if len(q.spill) > 0 {
+		v = q.spill[0]
+		q.spill = q.spill[1:]
+		return v, nil
+	}
+	return 0, fpgo.ErrQueueIsEmpty
+}
+
+func (q *c08Spill) Put(v int64) error    { return q.Offer(v) }
+func (q *c08Spill) Take() (int64, error) { return q.Poll() }
+
 type c08Target struct {
 	name  string
 	model hist.ModelKind
@@ -103,6 +137,23 @@ func c08MakeTarget(kind int) *c08Target {
 			close: func() { inner.Close() },
 			offer: func(v int64, alt bool) error { return q.Offer(v) },
 			take:  func(alt bool) (int64, error) { return q.Poll() }}
+	case 6:
+		// a user queue that EMBEDS a library queue (so it inherits whatever methods that type has) and adds unsynchronised
+		// state of its own: the wrapper must serialise it like any other queue
+		q := fpgo.NewConcurrentQueue[int64](&c08Spill{ChannelQueue: fpgo.NewChannelQueue[int64](4)})
+		return &c08Target{name: "ConcurrentQueue(user queue embedding ChannelQueue(4) + overflow slice)", model: hist.FIFO,
+			offer: func(v int64, alt bool) error {
+				if alt {
+					return q.Put(v)
+				}
+				return q.Offer(v)
+			},
+			take: func(alt bool) (int64, error) {
+				if alt {
+					return q.Take()
+				}
+				return q.Poll()
+			}}
 	default:
 		s := fpgo.NewConcurrentStack[int64](&c08Slice{})
 		return &c08Target{name: "ConcurrentStack(harness slice stack)", model: hist.LIFO,
@@ -437,6 +488,7 @@ func c08Phased(id string, workers, each int, queueFirst bool, seed int64) core.S
 
 func c08Scenarios(c *core.Ctx, race bool) []core.Scenario {
 	var out []core.Scenario
+	out = append(out, c08Instantiations(fmt.Sprintf("instantiations-race%v", race)))
 	for i := 0; i < c.Pick(40, 400); i++ {
 		out = append(out, c08Phased(fmt.Sprintf("phased-%d-race%v", i, race), 1+i%4, 2+i%7, i%2 == 0, c.Seed*5+int64(i)))
 	}
@@ -469,12 +521,12 @@ func c08Scenarios(c *core.Ctx, race bool) []core.Scenario {
 		if opsEach > 6 {
 			opsEach = 6
 		}
-		kind := i % 6
+		kind := i % 7
 		out = append(out, c08Scenario(fmt.Sprintf("short-%d-k%d-p%d-c%d-race%v", i, kind, p, cn, race), kind, p, cn, opsEach, false, c.Seed*7+int64(i)))
 	}
 	for i := 0; i < nLong; i++ {
 		p, cn := sizes[1+rng.Intn(4)], sizes[1+rng.Intn(4)]
-		kind := i % 6
+		kind := i % 7
 		opsEach := c.Pick(3000, 20000) / (p + cn) * 2
 		out = append(out, c08Scenario(fmt.Sprintf("long-%d-k%d-p%d-c%d-race%v", i, kind, p, cn, race), kind, p, cn, opsEach, true, c.Seed*11+int64(i)))
 	}
@@ -496,7 +548,7 @@ func init() {
 		Meta: func(c *core.Ctx) core.Meta {
 			return core.Meta{
 				Level: "exploration",
-				Rule:  "concurrent histories recorded at the client boundary (call before / return after, one monotonic clock, unique values = producer<<32|seq) against ConcurrentQueue and ConcurrentStack wrapping LinkedListQueue, ChannelQueue(3) (Offer/Poll), BufferedChannelQueue(2,6) (Offer/Poll, relaxed model; a drain that sees empty while the wrapped queue still holds values for 1 s is a violation) and a harness-provided non-thread-safe slice queue/stack; one LinkedListQueue behind BOTH wrappers in non-overlapping queue / stack phases; 1..16 producers x 1..16 consumers, PRNG yields; short histories (<= 40 ops, mixed roles) are checked for linearizability with porcupine against FIFO / LIFO / BoundedFIFO models after a single-threaded drain; long runs by the exactly-once / no-invention / per-producer-order checker; phased bursts (backlogs 1100..12000 built by 1 or 4 producers, removed completely by 1 or 4 consumers, then quiescent probes, 4-8 rounds, GC paused so that recycled nodes stay pooled); every call under recover; the same workload repeated in the -race build (deciding). distinct_nontrivial = distinct scenarios (workload seeds)",
+				Rule:  "concurrent histories recorded at the client boundary (call before / return after, one monotonic clock, unique values = producer<<32|seq) against ConcurrentQueue and ConcurrentStack wrapping LinkedListQueue, ChannelQueue(3) (Offer/Poll), BufferedChannelQueue(2,6) (Offer/Poll, relaxed model; a drain that sees empty while the wrapped queue still holds values for 1 s is a violation) a harness-provided non-thread-safe slice queue/stack and a user queue that embeds ChannelQueue(4) and adds an unsynchronised overflow slice; one LinkedListQueue behind BOTH wrappers in non-overlapping queue / stack phases; six other instantiations alive in one process (interface element types any / error / fmt.Stringer, *struct, func); 1..16 producers x 1..16 consumers, PRNG yields; short histories (<= 40 ops, mixed roles) are checked for linearizability with porcupine against FIFO / LIFO / BoundedFIFO models after a single-threaded drain; long runs by the exactly-once / no-invention / per-producer-order checker; phased bursts (backlogs 1100..12000 built by 1 or 4 producers, removed completely by 1 or 4 consumers, then quiescent probes, 4-8 rounds, GC paused so that recycled nodes stay pooled); every call under recover; the same workload repeated in the -race build (deciding). distinct_nontrivial = distinct scenarios (workload seeds)",
 				Assumptions: []string{"a race report inside the wrapped structure or the wrapper refutes the property (the baseline wrapper is expected to serialise every access)",
 					"ChannelQueue is wrapped through Offer/Poll only (its blocking Put/Take under the wrapper's lock are documented as blocking)"},
 			}
@@ -505,7 +557,7 @@ func init() {
 		Post:      porcupinePost,
 		Batch:     200, RaceToo: true, RaceBatch: 60, Par: 8, Timeout: 300e9,
 		RaceRelevant: func(s core.RaceSig) bool {
-			return strings.Contains(s.Text, "LinkedListQueue") || strings.Contains(s.Text, "ConcurrentQueue") || strings.Contains(s.Text, "ConcurrentStack") || strings.Contains(s.Text, "c08Slice")
+			return strings.Contains(s.Text, "LinkedListQueue") || strings.Contains(s.Text, "ConcurrentQueue") || strings.Contains(s.Text, "ConcurrentStack") || strings.Contains(s.Text, "c08Slice") || strings.Contains(s.Text, "c08Spill")
 		},
 	})
 }
